@@ -137,12 +137,13 @@ def random_case(rnd, params, values, supplies, depth):
             ops.append({"e": "Read"})
             ops.append({"e": "Incr", "n": rnd.choice([1, 1, 1, 2, 3])})
         elif c < 0.88:
-            ops.append({"e": "SupplyChange", "v": rnd.choice(supplies)})
+            # (a target may report an infinite supply)
+            ops.append({"e": "SupplyChange", "v": rnd.choice(supplies + [INF])})
         elif c < 0.95:
             ops.append({"e": "OutsideDemand", "v": rnd.choice(values)})
         else:
             ops.append({"e": "Fitness", "u": rnd.randrange(0, 5), "a": rnd.randrange(0, 5)})
-    return {"par": par, "supply": rnd.choice(supplies), "tdemand": rnd.choice(values), "ops": ops, "gty": rnd.choice(["int", "float"]), "src": "random"}
+    return {"par": par, "supply": rnd.choice(supplies + [INF]), "tdemand": rnd.choice(values), "ops": ops, "gty": rnd.choice(["int", "float"]), "src": "random"}
 
 
 def execute_with_incr(case):
@@ -165,7 +166,12 @@ def execute_with_incr(case):
         ops.append(op)
         e = op["e"]
         if e == "Write":
-            std.demand = from_grid(op["v"], Q, as_int=(op["ty"] == "int"))
+            try:
+                std.demand = from_grid(op["v"], Q, as_int=(op["ty"] == "int"))
+            except Exception as ex:  # noqa: a write has no documented way to fail
+                # nothing was forwarded that could be compared: off the grid, whatever the limits
+                events.append({"e": "Write", "v": op["v"], "ty": op["ty"], "t": OFFGRID, "s": OFFGRID, "raised": type(ex).__name__})
+                continue
             events.append({"e": "Write", "v": op["v"], "ty": op["ty"], "t": to_grid(pool.demand, Q), "s": private_demand(std)})
         elif e == "Read":
             last_read_py = std.demand
